@@ -544,7 +544,7 @@ def oracle_past(c, o):
         return (f'HPD system ({c["kind"]}, n = {c["n"]}, {c["dtype"]}), tolerance 0, max_iterations = {c["maxit"]} (far beyond convergence): the result is not '
                 f'finite; residual norms reported to the callback: {o["residual_norms"]}')
     eps = 1e-4 if c['dtype'] in ('complex64', 'float32') else 1e-10
-    if o['err'] > eps:
+    if c['maxit'] >= c['n'] and o['err'] > eps:      # "within n iterations": says nothing about fewer than n
         return f'after {c["maxit"]} >= n iterations the solution is not reached to working precision ({c["dtype"]}): relative error {o["err"]:.3g}'
     return None
 
